@@ -44,6 +44,9 @@ PY
   echo "{\"target\":\"$t\",\"runs_requested\":$RUNS,\"executions\":${execs:-0},\"coverage_edges\":${cov:-0},\"features\":${ft:-0},\"corpus_files\":$corp,\"libfuzzer_seed\":$SEED,\"exit\":$rc}" >>"$OUT.tmp"
   if grep -q "^VIOLATION" "$LOG"; then grep -A1 "^VIOLATION" "$LOG" | head -4; code=1
   elif [ $rc = 124 ]; then echo "INCONCLUSIVE: fuzz campaign $t hit its wall-clock cap" >&2; [ $code = 0 ] && code=2
+  elif grep -q "ERROR: libFuzzer: timeout\|ERROR: libFuzzer: out-of-memory" "$LOG"; then
+    # a per-input time or memory budget is a resource limit of the campaign, not an oracle
+    echo "INCONCLUSIVE: libFuzzer target $t stopped on a time / memory budget (input kept under $A)" >&2; [ $code = 0 ] && code=2
   elif [ $rc != 0 ]; then
     art=$(ls -t "$A" 2>/dev/null | head -1)
     echo "VIOLATION property=$ID replay=$A/$art"; echo "  libFuzzer target $t stopped (exit $rc): $(grep -m1 -E 'ERROR: (AddressSanitizer|libFuzzer)|panicked|deadly signal' "$LOG")"; code=1
